@@ -10,6 +10,7 @@ Every theorem quantifies over every byte list (`AllBytes bs`: elements < 256) an
 import AgVerif.Proof.InsnAll
 import AgVerif.Proof.InsnFields
 import AgVerif.Proof.InsnFieldsFull
+import AgVerif.Proof.InsnEdAll
 namespace AgVerif.C01
 open AgVerif.Insn AgVerif.Gen AgVerif.Spec
 
@@ -152,6 +153,15 @@ theorem fields_spec_35c_needs_count :
   ⟨[0x6e, 0x60, 0x03, 0x00, 0x21, 0x43], ⟨.f35c, 0x6e, [6, 3, 1, 2, 3, 4, 0]⟩, by unfold AllBytes; decide, by rfl,
     by decide, by decide⟩
 
+/-- Encode-then-decode, all 26 specification classes: an object whose attributes lie in the field ranges of the format
+    document (`fieldsOK`, decidable) re-encodes without error to exactly `length` bytes that start with the opcode
+    byte, and the class constructor applied to these bytes — followed by any further bytes — rebuilds exactly that
+    object.  Together with `roundtrip` the constructor and `get_raw()` are mutually inverse on in-range objects. -/
+theorem encode_decode (f : Fmt) (op : Nat) (v : List Int) (hop : op < 256) (h : fieldsOK f op v = true) :
+    ∃ bytes, encode ⟨f, op, v⟩ = some bytes ∧ bytes.length = Opcodes.length f ∧ AllBytes bytes ∧
+      bytes.head? = some op ∧ ∀ rest, decode f (bytes ++ rest) = .ok ⟨f, op, v⟩ :=
+  encode_decode_fields f op v hop h
+
 /-! ### non-vacuity -/
 
 example : AllBytes [0x6e, 0x20, 0x03, 0x00, 0x21, 0x00] := by unfold AllBytes; decide
@@ -166,6 +176,7 @@ example : 0x3e ∈ Dalvik.unused := by decide
 example : decode .f3rc [0x74, 0x03, 0x07, 0x00, 0x10, 0x00] = .ok ⟨.f3rc, 0x74, [3, 7, 16]⟩ := by rfl
 example : regs ⟨.f3rc, 0x74, [3, 7, 16]⟩ = [16, 17, 18] := by decide
 example : decode .f45cc [0xfa, 0x21, 0x03, 0x00, 0x54, 0x00, 0x09, 0x00] = .ok ⟨.f45cc, 0xfa, [2, 3, 4, 5, 0, 0, 1, 9]⟩ := by rfl
+example : fieldsOK .f35c 0x6e [2, 3, 1, 2, 0, 0, 0] = true ∧ fieldsOK .f51l 0x18 [255, -9223372036854775808] = true := by decide
 example : toSpec .f35c = some .f35c ∧ Dalvik.countA (leNat [0x6e, 0x20, 0x03, 0x00, 0x21, 0x00]) ≤ 5 := by decide
 
 end AgVerif.C01
